@@ -166,6 +166,10 @@ NodeOK(ns, i, r, p) ==
              /\ IsQ(V(1)) /\ QIsInt(V(1)) /\ AsInt(V(1)) \in SeqToSet(n.keys)
              /\ \A j \in 1..Len(n.keys) : IsQ(V(2 * j + 1)) /\ V(2 * j + 1) \in {Zero, One}
              /\ V(2 * IndexOf(n.keys, AsInt(V(1))) + 1) = One
+             \* degenerate sharing left out: a utility that is the very same node as an availability
+             \* (the engine re-evaluates the node as an availability while it still holds a pointer
+             \* to its derivatives as a utility: history-dependent Hessians were observed)
+             /\ \A j, k \in 1..Len(n.keys) : n.kids[2 * j] # n.kids[2 * k + 1]
        [] OTHER -> TRUE
   /\ LET v == Val(ns, i, r, p) IN IsQ(v) => ~QBig(v, Bound)
 
@@ -192,7 +196,8 @@ DiffNode(ns, i) ==
       F(j) == FreeBelow(ns, n.kids[j])
       V(j, r, p) == Val(ns, n.kids[j], r, p)
   IN
-  CASE n.op \in Discrete -> ~FreeBelow(ns, i)
+  CASE n.op = "BelongsTo" -> FALSE      \* refused by the engine whenever derivatives are requested
+    [] n.op \in Discrete -> ~FreeBelow(ns, i)
     [] n.op = "Elem" -> ~F(1)
     [] n.op = "ConditionalSum" -> \A j \in 1..(NK \div 2) : ~F(2 * j - 1)
     [] n.op = "_bioLogLogitFullChoiceSet" -> ~F(1)
